@@ -1,12 +1,16 @@
 /// We'll need symbols to set up a `panic_handler`, and alloc to run threads.
 /// We also need to set tls, which is done in `start`
-#[cfg(all(feature = "threaded", any(feature = "symbols", feature = "verif-hooks")))]
+#[cfg(all(feature = "threaded", feature = "symbols"))]
+pub(crate) mod spawn;
+#[cfg(all(feature = "threaded", feature = "verif-hooks", not(feature = "symbols")))]
 pub(crate) mod spawn;
 
 use crate::error::Result;
 use core::time::Duration;
 use rusl::error::Errno;
-#[cfg(all(feature = "threaded", any(feature = "symbols", feature = "verif-hooks")))]
+#[cfg(all(feature = "threaded", feature = "symbols"))]
+pub use spawn::*;
+#[cfg(all(feature = "threaded", feature = "verif-hooks", not(feature = "symbols")))]
 pub use spawn::*;
 
 /// Sleep the current thread for the provided `Duration`
